@@ -133,6 +133,8 @@ N4=[ # neutral renames across files: (files, regex, replacement, description)
  (["accountant/founds.go","accountant/accountant.go"],r"\bpourFunds\b","pourVertexFunds","rename a function under contract that event patterns name (pourFunds)"),
  (["accountant/storage.go","accountant/accountant.go"],r"\bsaveTrxInVertex\b","indexTransaction","rename a method under contract that event patterns name (saveTrxInVertex)"),
  (["gossip/gossip.go"],r"\bverifyGossipers\b","verifiedGossipers","rename a method under contract (verifyGossipers)"),
+ (["accountant/accountant.go"],r"\bdagLoaded\b","ledgerLoaded","rename a struct field that contracts mention (AccountingBook.dagLoaded)"),
+ (["accountant/accountant.go"],r"\bgenesisPublicAddress\b","genesisWallet","rename a struct field that contracts mention (AccountingBook.genesisPublicAddress)"),
 ]
 def mk(kind, name, f, old, new, within=None):
     p=os.path.join(REPO,'src',f)
